@@ -109,8 +109,8 @@ LineSrc(ln) == Join([i \in DOMAIN ln |-> AtomSrc(ln[i])], " ")
 LineHtml(ln, ds) == Join([i \in DOMAIN ln |-> AtomHtml(ln[i], ds)], " ")
 TextHtml(tx, ds) == Join([i \in DOMAIN tx |-> LineHtml(tx[i].atoms, ds) \o (IF tx[i].hard THEN "<br />" ELSE "")], "\n")
 
-(* a full reference whose label is unknown falls back to text; but then its first bracket pair may itself be a
-   shortcut reference.  The pools below keep "a" of Full() out of the label pool, so that cannot happen. *)
+(* a full reference whose label is unknown stays literal text as a whole: its first bracket pair is followed by a link
+   label and therefore is no shortcut reference (CommonMark 6.3), even when its text is a defined label: Full("foo", "nope") *)
 
 Words == <<"alpha", "beta", "gamma", "delta", "eps", "zeta", "eta", "theta", "iota", "kappa", "lam", "mu">>
 WordAt(n) == Words[((n - 1) % Len(Words)) + 1]
@@ -119,7 +119,7 @@ WordAt(n) == Words[((n - 1) % Len(Words)) + 1]
 LineSeq(n) ==
     LET w == WordAt(n) IN
     Pick(<< <<W(w)>>, <<Ref("foo"), W(w)>> >>,
-         << <<W(w)>>, <<W(w), Em("em")>>, <<Ref("foo"), W(w)>>, <<W(w), Ref("FOO")>>, <<Full("text", "foob")>> >>,
+         << <<W(w)>>, <<W(w), Em("em")>>, <<Ref("foo"), W(w)>>, <<W(w), Ref("FOO")>>, <<Full("text", "foob")>>, <<Full("foo", "nope"), W(w)>> >>,
          << <<W(w)>>, <<W(w), Em("em"), Code("co")>>, <<Link("ln", "/uri"), W(w)>>, <<Ref("foo"), W(w)>>, <<W(w), Ref("FOO")>>,
             <<Full("text", "Bar  BAZ"), W(w)>>, <<Coll("bar baz")>>, <<W(w), Ref("foob")>>, <<ImgRef("Foo"), W(w)>>, <<Strong("st"), W(w)>>,
             <<W(w), Full("text", "foo")>>, <<W(w), W("two"), W("three")>>,
@@ -134,7 +134,10 @@ LineSeq(n) ==
             <<W(w), Raw("<http://x.y/z?a=1>", "<a href=\"http://x.y/z?a=1\">http://x.y/z?a=1</a>")>>, <<Raw("<b>raw</b>", "<b>raw</b>"), W(w)>>,
             <<W(w), Raw("``a`b``", "<code>a`b</code>"), Raw("` a `", "<code>a</code>")>>, <<Raw("~~gone~~", "<del>gone</del>"), W(w)>>,
             <<W(w), Raw("![alt *e*](/i \"t\")", "<img src=\"/i\" alt=\"alt e\" title=\"t\" />")>>, <<Raw("[a `c`](</d e> 'q')", "<a href=\"/d%20e\" title=\"q\">a <code>c</code></a>"), W(w)>>,
-            <<W(w), Raw("a*b*c", "a<em>b</em>c"), Raw("snake_case_word", "snake_case_word")>> >>)
+            <<W(w), Raw("a*b*c", "a<em>b</em>c"), Raw("snake_case_word", "snake_case_word")>>,
+            <<Full("foo", "nope"), W(w)>>, <<W(w), Full("FOO", "nope")>>, <<Raw("![foo][nope]", "![foo][nope]"), W(w)>>,
+            <<W(w), Raw("[a](<> \"t\")", "<a href=\"\" title=\"t\">a</a>")>>, <<Raw("[a](<>)", "<a href=\"\">a</a>"), W(w)>>,
+            <<W(w), Raw("![i](<> 't')", "<img src=\"\" alt=\"i\" title=\"t\" />")>> >>)
 
 (* spelling variants: every action draws one index v and derives its free spelling choices from it, so that in
    simulation mode every kind of block is typed about equally often; over many documents all combinations occur *)
